@@ -616,6 +616,11 @@ func (e *Engine) FuncsForProperty(prop string) []*ssa.Function {
 					return true
 				}
 			}
+			for _, t := range l.ExhaustiveTags {
+				if t == prop {
+					return true
+				}
+			}
 		}
 		for _, cs := range fc.Callsites {
 			for _, c := range cs.Assert {
@@ -794,11 +799,33 @@ func (e *Engine) VerifyFunc(fn *ssa.Function) (vc *VC) {
 				cfail("callsite %s#%d of %s matches no call in the function (calls: %s)", cs.Callee, cs.Ord, fc.Ref, strings.Join(names, "; "))
 			}
 		}
-		for ord := range fc.Loops {
+		for ord, lc := range fc.Loops {
 			found := false
-			for _, li := range f.loops {
+			for h, li := range f.loops {
 				if li.ord == ord {
 					found = true
+					if lc.Exhaustive && e.clauseActive(&Clause{Tags: lc.ExhaustiveTags}) {
+						// every edge that leaves the loop starts at its header
+						early := ""
+						for b := range li.body {
+							if b == h {
+								continue
+							}
+							for _, s := range b.Succs {
+								if !li.body[s] {
+									early = fmt.Sprintf("block %d -> %d", b.Index, s.Index)
+								}
+							}
+						}
+						goal := "true"
+						if early != "" {
+							goal = "false"
+						}
+						vc.obls = append(vc.obls, &Obl{Name: fmt.Sprintf("%s/exhaustive/loop%d", f.namePfx, ord), Kind: "exhaustive", Guard: "true", Goal: goal, Func: f.namePfx})
+						if early != "" {
+							vc.note(fmt.Sprintf("loop %d is declared exhaustive but is left early (%s)", ord, early))
+						}
+					}
 				}
 			}
 			if !found {
